@@ -32,7 +32,8 @@ def build_model(spec):
         gen.init_params(model, g)
         return model, (a,), dict(desc=[f'lin{a}->{b}:f32', 'cast64', f'lin{b}->{c}:f64'])
     model, in_shape, info = gen.runnable_model(rng, dtype=pdt, allow_conv=spec.get('allow_conv', True),
-                                               unsupported=spec.get('unsupported', True), small=True)
+                                               unsupported=spec.get('unsupported', True), small=True,
+                                               allow_swap=bool(spec.get('allow_swap')))   # (the union-batch reference splits outputs along dim 0)
     g = torch.Generator().manual_seed(spec['model_seed'] + 1)
     gen.init_params(model, g)
     if not spec.get('var_res'):
